@@ -169,17 +169,17 @@ PROPS["C04"] = dict(module="Grenad.Props.C04", streams={"iter": (640, 19200), "e
 PROPS["C05"] = dict(module="Grenad.Props.C05", streams={"iter": (640, 19200), "edge": (64, 640)}, rules={"ops": ["prefix", "file"]})
 PROPS["C06"] = dict(module="Grenad.Props.C06", streams={"merge": (1280, 38400)}, rules={"ops": ["merge", "mergew"], "calls": True})
 PROPS["C07"] = dict(module="Grenad.Props.C07", streams={"sorter": (960, 28800)}, rules={"ops": ["sfinish"], "calls": "thorough"})
-PROPS["C08"] = dict(module="Grenad.Props.C08", streams={"sorter": (960, 28800)}, rules={"ops": ["sins", "snew"], "sorter_bounds": True})
+PROPS["C08"] = dict(module="Grenad.Props.C08", streams={"sorter": (960, 28800), "faultbig": (8, 64)}, rules={"ops": ["sins", "snew", "!sins", "!sfinish"], "sorter_bounds": True})
 PROPS["C09"] = dict(extra=extra_c09, module="Grenad.Props.C09", streams={"write": (640, 19200), "edge": (64, 640)}, rules={"ops": ["finish", "interop", "file"], "blocks": True, "finish_must_succeed": True})
 PROPS["C10"] = dict(module="Grenad.Props.C10", streams={"v1": (480, 14400)}, rules={"ops": ["file", "c", "range", "prefix"]})
 PROPS["C11"] = dict(module="Grenad.Props.C11", streams={"wio": (640, 19200), "rio": (480, 14400), "sorterio": (480, 14400)},
                     rules={"ops": ["ins", "finish", "sinkstate", "c", "range", "prefix", "file", "sfinish", "sins", "snew"]})
-PROPS["C12"] = dict(module="Grenad.Props.C12", streams={"fault": (64, 1920)},
+PROPS["C12"] = dict(module="Grenad.Props.C12", streams={"fault": (64, 1920), "faultbig": (8, 64)},
                     rules={"ops": ["ins", "finish", "sinkstate", "c", "merge", "mergew", "sins", "!sins", "sfinish", "!sfinish", "snew"]})
 PROPS["C15"] = dict(module="Grenad.Props.C15", streams={"write": (640, 19200), "unsorted": (320, 9600)}, rules={"ops": ["finish", "ins"], "blocks": True})
 PROPS["C16"] = dict(module="Grenad.Props.C16", streams={"cursor": (640, 19200), "seek": (320, 9600), "open": (128, 3840), "big": (4, 144)},
                     rules={"ops": ["c", "open", "file"], "loads": True, "fingerprint": False})
-PROPS["C17"] = dict(extra=extra_c17, module="Grenad.Props.C17", streams={"sorter": (960, 28800)}, rules={"ops": ["sins", "snew", "sfinish"], "alloc": True})
+PROPS["C17"] = dict(extra=extra_c17, module="Grenad.Props.C17", streams={"sorter": (960, 28800), "corrupt": (64, 1920)}, rules={"ops": ["sins", "snew", "sfinish", "!corrupt"], "alloc": True})
 PROPS["C18"] = dict(module="Grenad.Props.C18", streams={"unsorted": (960, 28800)}, rules={"ops": ["ins", "finish"], "blocks": True})
 
 
